@@ -861,6 +861,16 @@ def main():
     except ImportError:
         pass
     try:
+        import rs2lean_conn
+        gens += rs2lean_conn.generators(args.repo)
+    except ImportError:
+        pass
+    try:
+        import rs2lean_handler
+        gens += rs2lean_handler.generators(args.repo)
+    except ImportError:
+        pass
+    try:
         import rs2lean_dispatch
         gens += rs2lean_dispatch.generators(args.repo)
     except ImportError:
